@@ -107,6 +107,11 @@ func fail(t *testing.T, n, i int, what string) {
 }
 
 func checkN(t *testing.T, n int) {
+	defer func() {
+		if r := recover(); r != nil {
+			fail(t, n, -1, fmt.Sprintf("panic: %v", r))
+		}
+	}()
 	ls, hs := mkLeaves(n, ev.Seed)
 	var mt util.MerkleTreeI = &util.MerkleTree{}
 	mt.ComputeTree(hs)
